@@ -392,13 +392,13 @@ def r4_no_stale_cache(ctx: Context) -> None:
                 ctx.fail("R4.no-stale-cache", f"plot_results.{f2.name}:module-cache:{x.targets[0].value.id}", f"`{src(x)[:70]}` caches checkpoint content in module-level `{x.targets[0].value.id}`", f2, x)
 
 
-def no_shared_tables(ctx: Context) -> None:
+def no_shared_tables(ctx: Context, where: str = "black_it/calibrator.py") -> None:
     """One calibrator's id table is its own: nothing in the calibrator module keeps process-wide state (module-level stores, caches handing out an object that is
     written to later) - the module-state rule of C05 (R2), kept to what it reports in black_it/calibrator.py."""
     from . import c05
     before, n_obl = len(ctx.findings), len(ctx.obligations)
     c05.r2a_global_state(ctx)
-    keep = [f for f in ctx.findings[before:] if "black_it/calibrator.py" in f.where]
+    keep = [f for f in ctx.findings[before:] if where in f.where]
     kept = {f.key for f in keep}
     ctx.findings[before:] = keep
     ctx.obligations[n_obl:] = [o for o in ctx.obligations[n_obl:] if o["verdict"] != "violated" or o["key"] in kept]
